@@ -948,7 +948,16 @@ func runAlloc(t *testing.T, prop string) {
 			}
 			b := &verifrt.BFS{New: func() verifrt.System { return newCtlSys(u) }, Roots: mine, MaxUser: udepth, MaxFault: maxFault, Horizon: 90,
 				Before: o.before, After: o.after, Res: res, Deadline: deadline}
-			if prop == "C02" && (u.Name == "policy" || u.Name == "dual") {
+			if prop == "C03" {
+			// states from which no delivery order leads to a quiescent state: the controller keeps re-syncing (and writing) forever
+			b.Quiescent = func(sys verifrt.System) bool { return sys.(*ctlSys).quiescent() }
+			b.OnLivelock = func(hist []verifrt.Event, stuck int) {
+				cs := b.Replay(hist).(*ctlSys)
+				o.violate(cs, hist, "C03 the controller never reaches quiescence: every delivery order keeps it re-syncing last="+cs.lastUserDesc,
+					fmt.Sprintf("%d states from which no quiescent state is reachable by deliveries; first: pending services %v pools %v", stuck, cs.svcQ.Keys(), cs.poolQ.Keys()))
+			}
+		}
+		if prop == "C02" && (u.Name == "policy" || u.Name == "dual") {
 				// the policy must hold whichever pool the maps yield first: one non-default iteration order per history
 				b.ChoiceKinds, b.MaxChoiceDev = []string{"maporder"}, 1
 			}
